@@ -27,6 +27,8 @@ import (
 	"github.com/comdex-official/comdex/x/lend"
 	"github.com/comdex-official/comdex/x/liquidation"
 	liqv1types "github.com/comdex-official/comdex/x/liquidation/types"
+	lockertypes "github.com/comdex-official/comdex/x/locker/types"
+	rewardstypes "github.com/comdex-official/comdex/x/rewards/types"
 	"github.com/comdex-official/comdex/x/liquidationsV2"
 	liqv2types "github.com/comdex-official/comdex/x/liquidationsV2/types"
 	"github.com/comdex-official/comdex/x/liquidity"
@@ -380,6 +382,23 @@ func TestC15(t *testing.T) {
 		panics = append(panics, w.panics...)
 	}
 
+	// ---- corpus: D-C15-1 witness — the unwrapped surplus kick-off of liquidationsV2.BeginBlocker (c15_kick_test.go) ----------------
+	{
+		w0 := &c15World{t: t, tr: tr}
+		c15KickCampaign(w0, ks)
+		panics = append(panics, w0.panics...)
+	}
+
+	// ---- per-app granularity of the liquidity hooks: multi-app worlds, natural poison and injected faults per app ---------
+	{
+		w0 := &c15World{t: t, tr: tr}
+		c15ItemsCampaign(w0, 3, scale(5, 0))
+		if thorough() {
+			c15ItemsCampaign(w0, 2, 0)
+		}
+		panics = append(panics, w0.panics...)
+	}
+
 	// ---- generation 1 world ---------------------------------------------------------------------------------
 	{
 		w := c15NewWorld(t, tr, 12)
@@ -387,6 +406,22 @@ func TestC15(t *testing.T) {
 		w.setupLiquidity(1, "ucmdx", "ucmst", w.addr[6:10])
 		w.createGauge(1, w.addr[0], "uharbor")
 		w.activateVaultRewards(1, 1, w.addr[0], "uharbor")
+		// a locker on CMST and an external locker-reward programme (best effort: a refused fixture message is only counted)
+		if _, err := w.app.LockerKeeper.AddWhiteListedAsset(w.ctx, &lockertypes.MsgAddWhiteListedAssetRequest{From: w.addr[0].String(), AppId: 1, AssetId: 2}); err == nil {
+			if err := w.deliver(lockertypes.NewMsgCreateLockerRequest(w.addr[0].String(), sdk.NewInt(50000000), 2, 1)); err == nil {
+				tr.Count("fixture:v1.locker")
+				w.fund(w.addr[0], "uharbor", 100000000)
+				if err := w.deliver(rewardstypes.NewMsgActivateExternalRewardsLockers(1, 2, sdk.NewCoin("uharbor", sdk.NewInt(70000000)), 7, 1, w.addr[0])); err == nil {
+					tr.Count("fixture:v1.ext-locker-rewards")
+				} else {
+					tr.Count("fixture:v1.ext-locker-rewards-rejected")
+				}
+			} else {
+				tr.Count("fixture:v1.locker-rejected")
+			}
+		} else {
+			tr.Count("fixture:v1.locker-whitelist-rejected")
+		}
 		w.advance(6, 1)
 		w.campaign("v1.healthy", w.ctx, blockers, ks)
 		{
@@ -394,6 +429,10 @@ func TestC15(t *testing.T) {
 			st, _ := w.ctx.CacheContext()
 			st = st.WithBlockTime(st.BlockTime().Add(90000 * time.Second)).WithBlockHeight(st.BlockHeight() + 15000)
 			w.campaign("v1.healthy+1day", st, []c15Blocker{c15Find("rewards.BeginBlocker")}, ks)
+			// the chain was halted for three days: the epochs and the daily programmes catch up
+			st3, _ := w.ctx.CacheContext()
+			st3 = st3.WithBlockTime(st3.BlockTime().Add(3 * 90000 * time.Second)).WithBlockHeight(st3.BlockHeight() + 1)
+			w.campaign("v1.healthy+3days-halt", st3, []c15Blocker{c15Find("rewards.BeginBlocker")}, ks)
 			for _, e := range c15Envs() {
 				st2, _ := st.CacheContext()
 				e.prep(w, st2)
@@ -454,10 +493,34 @@ func TestC15(t *testing.T) {
 			w.envRun("v1.esm-expired+"+e.name, st, "1")
 		}
 		w.apply("auction.BeginBlocker")
+		w.apply("esm.BeginBlocker") // the price snapshot of the shut-down app is taken in the first block after the trigger
 		w.advance(6, 1)
 		w.envRun("v1.after-esm-close", w.ctx, "1")
 		w.advance(3700, 600)
 		w.campaign("v1.esm-cooloff", w.ctx, blockers, ks)
+		// the emergency-shutdown hook after the cool-off period, stage by stage (x/esm/abci.go:37-63): collateral redemption of the
+		// vaults / stable vaults and the collector's debt redemption in the first block, the share calculation in the second
+		esmOnly := []c15Blocker{c15Find("esm.BeginBlocker")}
+		for _, e := range c15Envs() {
+			st, _ := w.ctx.CacheContext()
+			e.prep(w, st)
+			w.envRun("v1.esm-cooloff+"+e.name, st, "1")
+		}
+		w.apply("esm.BeginBlocker")
+		w.advance(6, 1)
+		w.campaign("v1.esm-redeemed", w.ctx, esmOnly, ks)
+		for _, e := range c15Envs() {
+			st, _ := w.ctx.CacheContext()
+			e.prep(w, st)
+			w.envRun("v1.esm-redeemed+"+e.name, st, "1")
+		}
+		w.apply("esm.BeginBlocker")
+		w.advance(6, 1)
+		w.campaign("v1.esm-shares-done", w.ctx, esmOnly, ks)
+		if st, ok := w.app.EsmKeeper.GetESMStatus(w.ctx, 1); ok {
+			tr.Count(fmt.Sprintf("fixture:esm.status snapshot=%v vault=%v stable=%v collector=%v share=%v", st.SnapshotStatus, st.VaultRedemptionStatus,
+				st.StableVaultRedemptionStatus, st.CollectorTransaction, st.ShareCalculation))
+		}
 		panics = append(panics, w.panics...)
 	}
 
@@ -466,8 +529,24 @@ func TestC15(t *testing.T) {
 		w := c15NewWorld(t, tr, 12)
 		w.setupV2(nV, nV)
 		w.setupLiquidity(2, "uasset1", "uasset2", w.addr[6:10])
+		// an external lend-reward programme on pool 1 / the borrowed asset (best effort)
+		if err := w.deliver(rewardstypes.NewMsgActivateExternalRewardsLend(3, 1, []uint64{2}, 2, 1, sdk.NewCoin("uasset4", sdk.NewInt(70000000)), 1, 7, 1, w.addr[0])); err == nil {
+			tr.Count("fixture:v2.ext-lend-rewards")
+		} else {
+			tr.Count("fixture:v2.ext-lend-rewards-rejected")
+		}
 		w.advance(6, 1)
 		w.campaign("v2.healthy", w.ctx, blockers, ks)
+		{
+			st, _ := w.ctx.CacheContext()
+			st = st.WithBlockTime(st.BlockTime().Add(90000 * time.Second)).WithBlockHeight(st.BlockHeight() + 15000)
+			w.campaign("v2.healthy+1day", st, []c15Blocker{c15Find("rewards.BeginBlocker"), c15Find("lend.BeginBlocker"), c15Find("lend.BeginBlocker@14400")}, ks)
+			for _, e := range c15Envs() {
+				st2, _ := st.CacheContext()
+				e.prep(w, st2)
+				w.envRun("v2.healthy+1day+"+e.name, st2, "1")
+			}
+		}
 		w.setPrice(2, 1000000, true) // vault collateral (and the borrows' debt asset) falls
 		w.setPrice(1, 900000, true)  // the borrows' collateral falls further
 		w.campaign("v2.liquidatable", w.ctx, blockers, ks)
@@ -521,6 +600,50 @@ func TestC15(t *testing.T) {
 			e.prep(w, st)
 			w.envRun("v2.auctions-expired+"+e.name, st, "1")
 		}
+		panics = append(panics, w.panics...)
+	}
+
+	// ---- second generation under emergency shutdown: app 1 (governance token, ESM parameters) liquidated by x/liquidationsV2;
+	// its Dutch auctions while ESM is active (price update) and after their end (TriggerEsm), plus the debt auction (English)
+	// that the collector's low net fees kick off ---------------------------------------------------------------------------
+	{
+		w := c15NewWorld(t, tr, 12)
+		w.setupV1(nV)
+		dutch := liqv2types.DutchAuctionParam{Premium: c15Dec("1.2"), Discount: c15Dec("0.7"), DecrementFactor: sdk.NewInt(1)}
+		english := liqv2types.EnglishAuctionParam{DecrementFactor: sdk.NewInt(1)}
+		w.app.NewliqKeeper.SetLiquidationWhiteListing(w.ctx, liqv2types.LiquidationWhiteListing{AppId: 1, Initiator: true, IsDutchActivated: true,
+			DutchAuctionParam: &dutch, IsEnglishActivated: true, EnglishAuctionParam: &english, KeeeperIncentive: c15Dec("0.1")})
+		w.app.NewaucKeeper.SetAuctionParams(w.ctx, aucv2types.AuctionParams{AuctionDurationSeconds: 3600, Step: c15Dec("0.1"), WithdrawalFee: c15Dec("0.0"),
+			ClosingFee: c15Dec("0.0"), MinUsdValueLeft: 100000, BidFactor: c15Dec("0.1"), LiquidationPenalty: c15Dec("0.1"), AuctionBonus: c15Dec("0.0")})
+		w.advance(6, 1)
+		w.setPrice(1, 1000000, true)
+		g2 := []c15Blocker{c15Find("liquidationsV2.BeginBlocker"), c15Find("auctionsV2.BeginBlocker"), c15Find("esm.BeginBlocker")}
+		w.campaign("g2esm.liquidatable", w.ctx, g2, ks)
+		w.apply("liquidationsV2.BeginBlocker")
+		tr.Stats["fixture:g2esm.auctions"] = len(w.app.NewaucKeeper.GetAuctions(w.ctx))
+		w.advance(600, 100)
+		w.triggerESM(1)
+		w.apply("esm.BeginBlocker")
+		w.advance(6, 1)
+		w.campaign("g2esm.esm-auctions-open", w.ctx, g2, ks)
+		for _, e := range c15Envs() {
+			st, _ := w.ctx.CacheContext()
+			e.prep(w, st)
+			w.envRun("g2esm.esm-auctions-open+"+e.name, st, "1")
+		}
+		w.apply("auctionsV2.BeginBlocker")
+		w.advance(3700, 600)
+		w.campaign("g2esm.esm-auctions-ended", w.ctx, g2, ks)
+		for _, e := range c15Envs() {
+			st, _ := w.ctx.CacheContext()
+			e.prep(w, st)
+			w.envRun("g2esm.esm-auctions-ended+"+e.name, st, "1")
+		}
+		w.apply("auctionsV2.BeginBlocker")
+		w.apply("esm.BeginBlocker")
+		w.advance(6, 1)
+		w.campaign("g2esm.after-close", w.ctx, g2, ks)
+		tr.Stats["fixture:g2esm.auctions-after-close"] = len(w.app.NewaucKeeper.GetAuctions(w.ctx))
 		panics = append(panics, w.panics...)
 	}
 
